@@ -86,17 +86,19 @@ CLAIMS: dict[str, tuple[str, str, str, str]] = {
         'anything not listed and not annotated numeric is treated as free text.',
         'DESIGN.md section 4, C05'),
     'C06': (
-        'linear normal forms of the byte-range convention + def-use chain of the declared duration + dominance of the range refusal',
+        'linear normal forms of the byte-range convention + def-use chain of the declared duration + zone proof of the range refusal + path-sensitive linear evaluation of the indexer clock',
         'Only the conventions the static manifests and the media endpoints must share: '
         'generateSegmentList computes the inclusive end as pos + size - 1 (linear normal form), '
         'renders `start-end`, and an open range ends at length - 1 on the reader side; the '
         'duration rendered as mediaPresentationDuration in every template is mpd.mediaDuration, '
         'which ManifestContext.update_timing takes from the static timing context, which '
         'DashTiming.calculate_vod_params computes from the timing reference and nothing else; on '
-        'every normal return of LiveMedia.calculate_media_segment_index the test '
-        '`first <= seg_num <= last` has been passed (must-fact path analysis) and the refusal is '
+        'every normal return of LiveMedia.calculate_media_segment_index first <= number <= last is '
+        'implied (difference-bound proof, roles found by the producing calls) and the refusal is '
         'the ValueError the caller maps to 404; the static first/last range is startNumber .. '
-        'startNumber + N - 1.',
+        'startNumber + N - 1 on every path that implies a static mode; the indexer start clock is '
+        'the tfdt or the previous end and the end is start + sample durations (linear evaluation of '
+        'one fragment); static number and file index differ by start_number - 1.',
         'Not decided: counts, gaplessness, tiling of ranges, decode times - arithmetic on stored data.',
         'DESIGN.md section 4, C06'),
     'C07': (
@@ -149,7 +151,7 @@ CLAIMS: dict[str, tuple[str, str, str, str]] = {
         'receiver of load_fragment, the loop variable of the DrmContext), not on line positions.',
         'DESIGN.md section 4, C10'),
     'C11': (
-        'location-gating rule + template-AST facts + symbolic evaluation of the GUID permutation',
+        'location-gating rule (path-condition entailment) + template-AST facts + abstract interpretation over terms (GUID permutation, hash input sequences, XOR fold, base64url codec)',
         'Structural half of C11: per DRM system the cenc/moov/pro generators are enabled only '
         'under the same-named DrmLocation test (PlayReady cenc additionally version > 1.0); the '
         'manifest and the init segment construct DrmContext with the same roles and the key-set '
@@ -158,10 +160,13 @@ CLAIMS: dict[str, tuple[str, str, str, str]] = {
         'adp.default_kid|uuid and each per-system include is guarded by that system; the ClearKey '
         'handler only appends entries inside the iteration over the key lookup, pairs KID and KEY '
         'of one stored key, covers its decode exceptions and uses inverse base64url mappings; '
-        'hex_to_le_guid is evaluated symbolically over 32 hex positions and must equal the RFC '
-        '4122 bytes_le permutation.',
-        'Not decided (cryptographic value equality, out of reach of static analysis): key-seed '
-        'derivation equals Microsoft\'s algorithm, AES checksum values, PRO parse-back.',
+        'hex_to_le_guid is interpreted over terms (text, dashed text, raw bytes) and must equal the '
+        'RFC 4122 bytes_le permutation; generate_content_key interpreted over terms must return '
+        'key[i] = A[i]^A[i+16]^B[i]^B[i+16]^C[i]^C[i+16] with A, B, C the digests of (T|K), (T|K|T), '
+        '(T|K|T|K), T = seed[:30], K = little-endian key id (agreement of the construction with the '
+        'published key-seed algorithm, not of key bytes).',
+        'Not decided (cryptographic value equality, out of reach of static analysis): computed key '
+        'bytes, AES checksum values, PRO parse-back.',
         'DESIGN.md section 4, C11'),
     'C12': (
         'must-fact path analysis of the ownership test + exception coverage + return-nullability rule',
